@@ -123,6 +123,7 @@ AcceptIffWellFormed == Parse(B).ok = WellFormed(B)
 ErrorIsACause == LET p == Parse(B) IN
   p.ok \/ <<p.err, IF "type" \in DOMAIN p THEN p.type ELSE -1>> \in Causes(B)
 RejectedHasCause == Parse(B).ok <=> Causes(B) = {}
+CausesAgree == Causes(B) = CausesDecl(B)          \* the linear formulation is the declarative one
 
 \* C10 on accepted messages
 ExposureInv ==
